@@ -1,13 +1,13 @@
 """Driver-family dispatch for the driver properties C13 and C14.
 
-Each module vf/drivers/<fam>.py (pn53x_family, rcs380, udp, frontend) provides for the properties it serves:
+Each module vf/drivers/<fam>.py (pn53x_family, rcs380, udp, frontend, transport) provides for the properties it serves:
     plan_cXX(tier) -> list of shard descriptors;  run_cXX(desc, R, rng);  replay_cXX(case, R)
     RULE_CXX, REQUIRED_CXX, ASSUMPTIONS
 Signatures and counters are prefixed with the driver name ("pn533/...", "rcs380_...").
 """
 import importlib
 
-FAMILIES = ["pn53x_family", "rcs380", "udp", "frontend"]
+FAMILIES = ["pn53x_family", "rcs380", "udp", "frontend", "transport"]
 
 
 def family(name):
